@@ -1,9 +1,126 @@
-(* C09 - linkage and the object's symbol table follow C11 6.2.2 / 6.9.  (statements only; under construction) *)
-From Coq Require Import List NArith Bool.
-From Cproc Require Import Lib.LinkageBase Model.Linkage Spec.LinkSpec.
-Import ListNotations.
+(* C09 - linkage and the object's symbol table follow C11 6.2.2 / 6.9.
+   Only statements, each closed by `exact`, with Print Assumptions beneath; non-vacuity Examples.
 
-Example C09_nonvacuous_placeholder :
-  Linkage.run [IDecl (DObj OSnone None false); IDecl (DObj OSnone None false)] =
-  LinkSpec.run [IDecl (DObj OSnone None false); IDecl (DObj OSnone None false)].
-Proof. vm_compute. reflexivity. Qed.
+   Linkage.run h   the symbol table ("nm view") the modelled compiler code produces for the history h of ONE identifier
+   LinkSpec.run h  what C11 6.2.2p3-7, 6.7p3, 6.7.1, 6.7.4p7, 6.7.9p5, 6.9.2 prescribe for h
+                   (Accept table | Reject = diagnostic required | Unspec reason = undefined behaviour / outside the property)
+   known_devs h    h runs into one of the two recorded deviations of the compiler (D19, thread-local tentative definitions) *)
+From Coq Require Import List NArith Bool.
+From Cproc Require Import Lib.LinkageBase Model.Linkage Spec.LinkSpec Proofs.LinkageProofs.
+Import ListNotations.
+Local Open Scope N_scope.
+
+(* Headline: for every history (any length below the wrap-around of the 32-bit name counter) on which C11 specifies an
+   outcome and which avoids the two recorded deviations, the compiler's verdict (accept / diagnose) and the symbol
+   table it emits - definitions of the named symbol with their export and thread marks and assembler name, one
+   anonymous symbol per block-scope static, and what every use refers to - are exactly the prescribed ones. *)
+Theorem C09_linkage_spec : forall h,
+  N.of_nat (length h) < two32 -> known_devs h = false -> specified (LinkSpec.run h) = true ->
+  Linkage.run h = LinkSpec.run h.
+Proof. exact linkage_spec. Qed.
+Print Assumptions C09_linkage_spec.
+
+(* The unrestricted statement is false: D19 (`inline int f(void){..} extern inline int f(void);` emits no definition) ... *)
+Theorem C09_inline_rule_refuted :
+  exists h, N.of_nat (length h) < two32 /\ specified (LinkSpec.run h) = true /\ Linkage.run h <> LinkSpec.run h.
+Proof. exact inline_rule_refuted. Qed.
+Print Assumptions C09_inline_rule_refuted.
+
+(* ... and `_Thread_local int x; _Thread_local int x;` (the symbol is defined twice). *)
+Theorem C09_thread_tentative_refuted :
+  exists h, N.of_nat (length h) < two32 /\ specified (LinkSpec.run h) = true /\ Linkage.run h <> LinkSpec.run h.
+Proof. exact thread_tentative_refuted. Qed.
+Print Assumptions C09_thread_tentative_refuted.
+
+(* 6.7.4p7 restricted: histories of file-scope function declarations in which no declaration that lacks `inline`
+   (or has `extern`) follows the body of a so-far-inline definition. *)
+Theorem C09_inline_rule_partial : forall h,
+  N.of_nat (length h) < two32 -> forallb is_func_decl h = true -> inline_late_from init_sstate h = false ->
+  specified (LinkSpec.run h) = true -> Linkage.run h = LinkSpec.run h.
+Proof. exact inline_rule_partial. Qed.
+Print Assumptions C09_inline_rule_partial.
+
+(* At most one definition of the named symbol per unit. *)
+Theorem C09_one_definition : forall h t,
+  N.of_nat (length h) < two32 -> known_devs h = false -> specified (LinkSpec.run h) = true ->
+  Linkage.run h = Accept t -> (length (st_linked t) <= 1)%nat.
+Proof. exact one_definition. Qed.
+Print Assumptions C09_one_definition.
+
+(* A file-scope declaration without initializer and without extern (a tentative definition) makes the unit define
+   the object exactly once, whatever else the history contains. *)
+Theorem C09_tentative_one_definition : forall h1 sc asm h2 s1 x t,
+  N.of_nat (length (h1 ++ IDecl (DObj sc asm false) :: h2)) < two32 ->
+  known_devs (h1 ++ IDecl (DObj sc asm false) :: h2) = false ->
+  specified (LinkSpec.run (h1 ++ IDecl (DObj sc asm false) :: h2)) = true ->
+  spec_steps init_sstate h1 = SOk s1 -> ss_frames s1 = [x] -> osc_extern sc = false ->
+  Linkage.run (h1 ++ IDecl (DObj sc asm false) :: h2) = Accept t ->
+  exists d, st_linked t = [d] /\ ld_kind d = KObj.
+Proof. exact tentative_one_definition. Qed.
+Print Assumptions C09_tentative_one_definition.
+
+(* emittentativedefns: nothing for an object that has been defined, exactly one definition for one that has not. *)
+Theorem C09_flush_one_definition : forall n d defs d' defs',
+  flush n d defs = Some (d', defs') -> md_storage d <> SAuto ->
+  (md_defined d = true -> defs' = defs) /\
+  (md_defined d = false -> n <> 0%nat -> exists a id t e, defs' = EData a id t e :: defs).
+Proof. exact flush_one_definition. Qed.
+Print Assumptions C09_flush_one_definition.
+
+(* A unit that only declares the identifier `extern` (without initializer / body) defines nothing - for every history. *)
+Theorem C09_extern_never_defines : forall h t,
+  forallb extern_only h = true -> Linkage.run h = Accept t -> st_linked t = [] /\ st_anon t = [].
+Proof. exact extern_never_defines. Qed.
+Print Assumptions C09_extern_never_defines.
+
+(* The numbers in $.Lname.N never repeat - for every history short enough not to wrap the counter. *)
+Theorem C09_local_names_unique : forall h defs refs,
+  2 * N.of_nat (length h) < two32 -> run_events h = FAccept defs refs -> NoDup (local_ids defs).
+Proof. exact local_names_unique. Qed.
+Print Assumptions C09_local_names_unique.
+
+(* declcommon: an `extern` or function redeclaration takes the linkage of the prior declaration (that of the visible
+   one at block scope; external if that one has none - 6.2.2p4). *)
+Theorem C09_redecl_inherits : forall parents k asm ex prior d,
+  declcommon parents k asm false ex prior = Some d -> ex = true \/ k = KFunc ->
+  match prior with
+  | Some p => md_link d = md_link p
+  | None =>
+    match lookup parents with
+    | Some p => if link_eqb (md_link p) LNone then md_link d = LExtern else md_link d = md_link p
+    | None => md_link d = LExtern
+    end
+  end.
+Proof. exact redecl_inherits. Qed.
+Print Assumptions C09_redecl_inherits.
+
+(* ---- non-vacuity ---- *)
+(* `int x; int x; void w1(void){ static int x; x; } void w2(void){ extern int x; x; } int x = 1;`
+   meets the hypotheses of C09_linkage_spec and exercises tentative definitions, a block-scope static, 6.2.2p4 and a definition *)
+Definition ex_hist : list item :=
+  [IDecl (DObj OSnone None false); IDecl (DObj OSnone None false);
+   IOpen; IDecl (DObj OSstatic None false); IUse; IClose;
+   IOpen; IDecl (DObj OSextern None false); IUse; IClose;
+   IDecl (DObj OSnone None true)].
+Example C09_nonvacuous :
+  N.of_nat (length ex_hist) < two32 /\ known_devs ex_hist = false /\ specified (LinkSpec.run ex_hist) = true /\
+  Linkage.run ex_hist =
+    Accept {| st_linked := [{| ld_name := Plain; ld_kind := KObj; ld_thread := false; ld_export := true |}];
+              st_anon := [false]; st_refs := [RAnon false; RLinked Plain false] |} /\
+  run_events ex_hist = FAccept [EData None 2 false false; EData None 0 false true] [MRef None 2 false; MRef None 0 false].
+Proof. repeat split; vm_compute; reflexivity. Qed.
+
+(* both branches of 6.7.4p7 under the hypotheses of C09_inline_rule_partial, and a rejected and an unspecified history *)
+Example C09_nonvacuous_inline :
+  let inline_only := [IDecl (DFunc FSnone true None false); IDecl (DFunc FSnone true None true)] in
+  let external := [IDecl (DFunc FSnone false None false); IDecl (DFunc FSnone true None true)] in
+  forallb is_func_decl inline_only = true /\ inline_late_from init_sstate inline_only = false /\
+  Linkage.run inline_only = Accept {| st_linked := []; st_anon := []; st_refs := [] |} /\
+  forallb is_func_decl external = true /\ inline_late_from init_sstate external = false /\
+  Linkage.run external =
+    Accept {| st_linked := [{| ld_name := Plain; ld_kind := KFunc; ld_thread := false; ld_export := true |}]; st_anon := []; st_refs := [] |} /\
+  LinkSpec.run [IDecl (DObj OSstatic None true); IDecl (DObj OSstatic None true)] = Reject /\
+  Linkage.run [IDecl (DObj OSstatic None true); IDecl (DObj OSstatic None true)] = Reject /\
+  LinkSpec.run [IDecl (DObj OSnone None false); IDecl (DObj OSstatic None false)] = Unspec UBothLinkages /\
+  known_devs d19_witness = true /\ known_devs thread_witness = true.
+Proof. repeat split; vm_compute; reflexivity. Qed.
